@@ -4,5 +4,6 @@
 #![allow(dead_code, unused_variables, unused_must_use, clippy::all)]
 pub mod algorithms;
 pub mod deadline_support;
+pub mod text;
 pub mod types;
 pub mod udiff;
